@@ -151,13 +151,56 @@ fn function_value() -> RV {
 /// names that rule text cannot spell, reached through the constructors: a reference names an input
 /// field, a symbol names a registered symbol, whatever characters the name is made of
 fn api_names_leg(acc: &mut Acc) {
-    let names = ["first-name", "2fa", "", "a b", "é", "max-age", "x.y", "if", "none", "i5", "f.5", "\"q\"", "a\nb", "_", "facts "];
-    for present in [true, false] {
+    // plain non-identifier names, then one base name decorated with every ASCII punctuation
+    // character / blank as a prefix and as a suffix, its case variants and the base name itself:
+    // all registered at once, each must resolve to its own value (a registration or lookup that
+    // trims, strips a sigil or folds case makes two of them meet)
+    let mut names: Vec<String> = ["first-name", "2fa", "", "a b", "é", "max-age", "x.y", "if", "none", "i5", "f.5", "\"q\"", "a\nb", "_", "facts "].iter().map(|s| s.to_string()).collect();
+    names.extend(["limit", "Limit", "LIMIT", "lımıt", "limit\u{301}", "ｌimit", "l\u{200b}imit"].iter().map(|s| s.to_string()));
+    for c in (0x20u8..0x7f).map(|b| b as char).filter(|c| !c.is_ascii_alphanumeric()).chain(['\t', '\n', '\0', '\u{a0}', '\u{feff}']) {
+        names.push(format!("{c}limit"));
+        names.push(format!("limit{c}"));
+        names.push(format!("{c}limit{c}"));
+        names.push(format!("{c}{c}limit"));
+    }
+    names.sort();
+    names.dedup();
+    let names: Vec<&str> = names.iter().map(|s| s.as_str()).collect();
+    for (present, route) in [(true, 0), (true, 1), (true, 2), (true, 3), (false, 0)] {
         let facts = if present { Value::Map(names.iter().enumerate().map(|(i, n)| (n.to_string(), Value::Int(i as i128))).collect()) } else { Value::Map([("other".to_string(), Value::Int(1))].into_iter().collect()) };
         let mut b = ruleset();
         if present {
-            for (i, n) in names.iter().enumerate() {
-                b = b.with_symbol(*n, Value::Int(100 + i as i128));
+            // registration routes: with_symbol one by one (forwards / backwards), Symbols::insert +
+            // with_symbols, Symbols::append + with_symbols
+            match route {
+                0 => {
+                    for (i, n) in names.iter().enumerate() {
+                        b = b.with_symbol(*n, Value::Int(100 + i as i128));
+                    }
+                }
+                1 => {
+                    for (i, n) in names.iter().enumerate().rev() {
+                        b = b.with_symbol(*n, Value::Int(100 + i as i128));
+                    }
+                }
+                2 => {
+                    let mut syms = Symbols::default();
+                    for (i, n) in names.iter().enumerate() {
+                        syms.insert(*n, Value::Int(100 + i as i128));
+                    }
+                    b = match b.with_symbols(syms) {
+                        Ok(b) => b,
+                        Err(e) => return acc.machinery(format!("api-names: {e}")),
+                    };
+                }
+                _ => {
+                    let mut syms = Symbols::default();
+                    syms.append(names.iter().enumerate().map(|(i, n)| (n.to_string(), Value::Int(100 + i as i128))));
+                    b = match b.with_symbols(syms) {
+                        Ok(b) => b,
+                        Err(e) => return acc.machinery(format!("api-names: {e}")),
+                    };
+                }
             }
         }
         for (i, n) in names.iter().enumerate() {
@@ -186,8 +229,8 @@ fn api_names_leg(acc: &mut Acc) {
                     // the word `facts` itself is the whole input; every other name is a plain name
                     if conforms(&want, &got) == Some(false) {
                         acc.violation(Violation {
-                            sig: format!("api-name/{}/{}", if is_ref { "reference" } else { "symbol" }, got.class()),
-                            what: format!("{} {n:?} built through the constructor ({}): observed {}, expected {}", if is_ref { "reference" } else { "symbol" }, if present { "present" } else { "absent" }, got.show(), show_exp(&want)),
+                            sig: format!("api-name/{}/{}/route{route}", if is_ref { "reference" } else { "symbol" }, got.class()),
+                            what: format!("{} {n:?} built through the constructor ({}, registration route {route}): observed {}, expected {}", if is_ref { "reference" } else { "symbol" }, if present { "present" } else { "absent" }, got.show(), show_exp(&want)),
                             case: json!({"kind": "api-step", "name": n}),
                             size: n.len(),
                         });
